@@ -10,10 +10,12 @@ from harness.common import core
 from harness.common.core import rat
 
 ID = "C19"
-LEAN_TARGETS = ["ChmpyVerif.Props.C19"]
+LEAN_TARGETS = ["ChmpyVerif.Props.C19", "ChmpyVerif.Props.C19Scale"]
 T = "ChmpyVerif.Props.C19."
 THEOREMS = [T + n for n in ("dual_unit", "normal_dot_eq", "vertex_on_facets", "vertex_feasible", "vertex_scaling", "fan_length", "fan_mem",
                             "fan_boundary", "windingOrder_perm", "facetsOf_mem", "orderFacet_subset", "construct_vertex_on_facet", "construct_feasible")]
+# the scaling law through the degenerate-vertex pruning (relative threshold)
+THEOREMS += ["ChmpyVerif.Props.C19." + n for n in ("dot_smul_smul", "foldl_scale", "pruneIdx_scale")]
 TRUSTED = [
     "hand model Model/Wulff.lean (exact rationals) of everything WulffConstruction does after scipy's ConvexHull: dual points, vertices from dual "
     "simplices, facet membership, relative-threshold pruning, atan2 ordering decided exactly by sign/cross-product, fan triangulation",
